@@ -27,7 +27,48 @@ fn blob_log_restore(req: &Value) -> Value {
     json!({"segments_in_snapshot": segments_before, "segments_now": restored.segment_count(), "problems": bad, "violates": !bad.is_empty()})
 }
 
+
+/// C3: a store that has deleted entries (free slots, tombstones) is rolled back to an image; every key of the image must read back
+/// with its own value, also after one more write (a clear() that keeps a free list or a reverse map lets two keys share storage).
+fn store_clear_reuse(_req: &Value) -> Value {
+    use tensor_store::{ScalarValue, TensorData, TensorValue};
+    const DIM: usize = 384;
+    let vector_for = |i: usize| { let mut v = vec![0.0f32; DIM]; v[i % DIM] = (i + 1) as f32; v[(100 + 2 * i) % DIM] = 0.5; v };
+    let emb = |i: usize| { let mut t = TensorData::new(); t.set("_embedding", TensorValue::Vector(vector_for(i))); t };
+    let meta = |i: usize| { let mut t = TensorData::new(); t.set("v", TensorValue::Scalar(ScalarValue::Int(i as i64))); t };
+    let store = TensorStore::new();
+    for i in 0..6 { store.put(format!("emb:k{i}"), emb(i)).unwrap(); store.put(format!("doc:k{i}"), meta(i)).unwrap(); }
+    let image = match store.snapshot_bytes() { Ok(b) => b, Err(e) => return json!({"error": e.to_string()}) };
+    // after the checkpoint: deletions (slots go to free lists, ids to tombstones) and additions
+    for k in ["emb:k1", "emb:k4", "doc:k2"] { let _ = store.delete(k); }
+    for i in 6..9 { store.put(format!("emb:k{i}"), emb(i)).unwrap(); }
+    let _ = store.delete("emb:k7");
+    if let Err(e) = store.restore_from_bytes(&image) { return json!({"error": e.to_string()}); }
+    let mut bad: Vec<String> = vec![];
+    let check = |bad: &mut Vec<String>, when: &str| {
+        for i in 0..6 {
+            match store.get(&format!("emb:k{i}")) {
+                Ok(d) => match d.get("_embedding") { Some(TensorValue::Vector(v)) if *v == vector_for(i) => {}, other => bad.push(format!("{when}: emb:k{i} reads back {:?}", other.map(|_| "another vector"))) },
+                Err(e) => bad.push(format!("{when}: emb:k{i}: {e}")),
+            }
+            match store.get(&format!("doc:k{i}")) {
+                Ok(d) => if d.get("v") != Some(&TensorValue::Scalar(ScalarValue::Int(i as i64))) { bad.push(format!("{when}: doc:k{i} differs")) },
+                Err(e) => bad.push(format!("{when}: doc:k{i}: {e}")),
+            }
+        }
+        for i in 6..9 { if store.get(&format!("emb:k{i}")).is_ok() { bad.push(format!("{when}: emb:k{i} (added after the checkpoint) is still there")); } }
+    };
+    check(&mut bad, "after rollback");
+    store.put("emb:extra", emb(99)).unwrap();
+    store.put("doc:extra", meta(99)).unwrap();
+    check(&mut bad, "after one more write");
+    json!({"problems": bad, "violates": !bad.is_empty()})
+}
+
 pub fn handle(op: &str, _req: &Value) -> Option<Value> {
+    if op == "store_clear_reuse" {
+        return Some(store_clear_reuse(_req));
+    }
     if op == "blob_log_restore" {
         return Some(blob_log_restore(_req));
     }
